@@ -32,7 +32,8 @@ COMPONENTS = c04.COMPONENTS
 # ---------------------------------------------------------------- (a) bookkeeping
 
 def build_book(r, tier):
-    fmt = r.choice(["dkvp", "dkvp", "csv", "csv_implicit", "json", "nidx", "tsv", "jsonl", "xtab"])
+    fmt = r.choice(["dkvp", "dkvp", "csv", "csv_implicit", "json", "nidx", "tsv", "jsonl", "xtab", "pprint", "pprint_fixed", "pprint_barred",
+                    "markdown", "csvlite"])
     nfiles = r.randint(1, 4)
     batch = r.choice([1, 2, 3, 4, 5, 7, 500])
     files, names, model = {}, [], []
@@ -41,7 +42,7 @@ def build_book(r, tier):
         n = r.choice([0, 0, 1, 2, batch - 1, batch, batch + 1, 2 * batch, r.randint(1, 12)])
         n = max(0, min(n, 40))
         nm = "f%d.%s" % (k + 1, fmt.split("_")[0])
-        nf = r.randint(1, 5) if fmt in ("csv", "csv_implicit", "tsv", "nidx") else None
+        nf = r.randint(1, 5) if fmt in ("csv", "csv_implicit", "tsv", "nidx", "pprint", "pprint_fixed", "pprint_barred", "markdown", "csvlite") else None
         lines = []
         hdr = ["h%d_%d" % (k + 1, c) for c in range(nf or 0)]
         recs = []
@@ -58,6 +59,45 @@ def build_book(r, tier):
                 lines.append(sep.join(hdr))
             for rec in recs:
                 lines.append(sep.join(v for _, v in rec))
+            text = "\n".join(lines) + ("\n" if lines else "")
+        elif fmt == "csvlite":
+            # schema change inside the file: blank line, then a new header (same names with a suffix)
+            cut = r.randint(1, n - 1) if n >= 2 and r.chance(0.5) else None
+            if n > 0 or r.chance(0.5):
+                lines.append(",".join(hdr))
+            for j, rec in enumerate(recs):
+                if cut is not None and j == cut:
+                    lines.append("")
+                    lines.append(",".join(h + "x" for h in hdr))
+                if cut is not None and j >= cut:
+                    recs[j] = [(h + "x", v) for h, v in rec]
+                lines.append(",".join(v for _, v in rec))
+            text = "\n".join(lines) + ("\n" if lines else "")
+        elif fmt in ("pprint", "pprint_fixed"):
+            # left-aligned columns, widths differ per file (so a splitter kept from the previous file mis-cuts)
+            widths = [r.randint(len(h) + 1, len(h) + 6) for h in hdr]
+            if n > 0 or r.chance(0.5):
+                lines.append("".join(h.ljust(w) for h, w in zip(hdr, widths)).rstrip() if fmt == "pprint" else "".join(h.ljust(w) for h, w in zip(hdr, widths)))
+            for rec in recs:
+                lines.append("".join(v.ljust(w) for (_, v), w in zip(rec, widths)))
+            text = "\n".join(lines) + ("\n" if lines else "")
+        elif fmt == "pprint_barred":
+            widths = [len(h) + r.randint(0, 3) for h in hdr]
+            bar = "+" + "+".join("-" * (w + 2) for w in widths) + "+"
+            if n > 0:
+                lines.append(bar)
+                lines.append("| " + " | ".join(h.ljust(w) for h, w in zip(hdr, widths)) + " |")
+                lines.append(bar)
+                for rec in recs:
+                    lines.append("| " + " | ".join(v.ljust(w) for (_, v), w in zip(rec, widths)) + " |")
+                lines.append(bar)
+            text = "\n".join(lines) + ("\n" if lines else "")
+        elif fmt == "markdown":
+            if n > 0 or r.chance(0.5):
+                lines.append("| " + " | ".join(hdr) + " |")
+                lines.append("| " + " | ".join("---" for _ in hdr) + " |")
+            for rec in recs:
+                lines.append("| " + " | ".join(v for _, v in rec) + " |")
             text = "\n".join(lines) + ("\n" if lines else "")
         elif fmt == "csv_implicit":
             for rec in recs:
@@ -88,7 +128,8 @@ def build_book(r, tier):
                           "keys": ";".join(str(c + 1) if positional else kk for c, (kk, _) in enumerate(rec)),
                           "vals": ";".join(vv for _, vv in rec)})
     iflags = {"dkvp": [], "csv": ["--icsv"], "csv_implicit": ["--icsv", "--implicit-csv-header"], "json": ["--ijson"], "nidx": ["--inidx", "--ifs", " "],
-              "tsv": ["--itsv"], "jsonl": ["--ijsonl"], "xtab": ["--ixtab"]}[fmt]
+              "tsv": ["--itsv"], "jsonl": ["--ijsonl"], "xtab": ["--ixtab"], "pprint": ["--ipprint"], "pprint_fixed": ["--ipprint", "--fixed", "left-align"],
+              "pprint_barred": ["--ipprint", "--barred-input"], "markdown": ["--imd"], "csvlite": ["--icsvlite"]}[fmt]
     # keys/vals: the record content itself (per-file header reset, concatenation of files), not only the counters
     prog = ("str keys = joink($*, \";\"); str vals = joinv($*, \";\"); $nf1 = NF; $nf2 = NF; "
             "$* = {\"nr\": NR, \"fnr\": FNR, \"f\": FILENAME, \"k\": FILENUM, \"nf1\": $nf1, \"nf2\": $nf2, \"keys\": keys, \"vals\": vals}; "
